@@ -229,3 +229,123 @@ package anthropic
 //@   modifies *
 //@   ensures res == nil && !evBroken ==> evStarted && evDelta && evStopped && evOpen == -1
 //@   ensures res == nil && !evBroken ==> argsOut == argsIn
+
+// ---- C12: request translation (Anthropic -> OpenAI). Decoded JSON values are interface values; strOf reads a string
+// field the way the code does (`x, _ := v.(string)`), blkMap views a content block as a JSON object.
+//@ spec func strOf(x interface{}) string = ite(typeis(x, "string"), asString(x), "")
+//@ spec func isObj(x interface{}) bool = typeis(x, "map[string]interface{}")
+//@ spec func blkMap(x interface{}) map[string]interface{} = asType(x, "map[string]interface{}")
+//@ spec func blkType(x interface{}) string = ite(isObj(x), strOf(blkMap(x)["type"]), "")
+//@ spec func isToolResult(x interface{}) bool = isObj(x) && blkType(x) == "tool_result"
+//@ spec func isText(x interface{}) bool = isObj(x) && blkType(x) == "text" && strOf(blkMap(x)["text"]) != ""
+
+//@ spec func noResultBefore(blocks []interface{}, j int) bool = forall q int :: 0 <= q && q < j ==> !isToolResult(blocks[q])
+
+//@ func (t *Translator) convertToolUse
+//@   property C12
+//@   safety
+//@   requires t != nil && t.logger != nil
+//@   ensures (res != nil) <==> (strOf(block["id"]) != "" && strOf(block["name"]) != "")
+//@   ensures res != nil ==> strOf(res["id"]) == strOf(block["id"]) && strOf(res["type"]) == "function" && isObj(res["function"]) && strOf(blkMap(res["function"])["name"]) == strOf(block["name"])
+
+// a user turn: the tool results become tool messages linked to their call ids, the text becomes one user message
+//@ func (t *Translator) convertUserMessage
+//@   property C12
+//@   safety
+//@   requires t != nil && t.logger != nil
+//@   requires forall j int :: 0 <= j && j < len(blocks) && isObj(blocks[j]) ==> allocated(blkMap(blocks[j]))
+//@   loop 1 invariant forall k int :: 0 <= k && k < len(toolResults) ==> toolResults[k] != nil && allocated(toolResults[k]) && strOf(toolResults[k]["role"]) == "tool" && (exists j int :: 0 <= j && j < i$1 && isToolResult(blocks[j]) && strOf(toolResults[k]["tool_call_id"]) == strOf(blkMap(blocks[j])["tool_use_id"]))
+//@   loop 1 invariant (len(toolResults) > 0) <==> (exists j int :: 0 <= j && j < i$1 && isToolResult(blocks[j]))
+//@   loop 1 invariant (len(textParts) > 0) <==> (exists j int :: 0 <= j && j < i$1 && isText(blocks[j]))
+//@   loop 1 invariant i$1 > 0 && isToolResult(blocks[0]) ==> !textFirst && len(toolResults) > 0 && strOf(toolResults[0]["tool_call_id"]) == strOf(blkMap(blocks[0])["tool_use_id"])
+//@   loop 1 invariant i$1 > 0 && isText(blocks[0]) ==> textFirst
+//@   loop 1 invariant textFirst ==> len(textParts) > 0
+//@   ensures len(blocks) > 0 && isToolResult(blocks[0]) ==> !res2 && len(res1) > 0 && strOf(res1[0]["tool_call_id"]) == strOf(blkMap(blocks[0])["tool_use_id"])
+//@   ensures len(blocks) > 0 && isText(blocks[0]) ==> res2 && res0 != nil
+//@   ensures forall k int :: 0 <= k && k < len(res1) ==> res1[k] != nil && allocated(res1[k]) && strOf(res1[k]["role"]) == "tool" && (exists j int :: 0 <= j && j < len(blocks) && isToolResult(blocks[j]) && strOf(res1[k]["tool_call_id"]) == strOf(blkMap(blocks[j])["tool_use_id"]))
+//@   ensures (len(res1) > 0) <==> (exists j int :: 0 <= j && j < len(blocks) && isToolResult(blocks[j]))
+//@   ensures (res0 != nil) <==> (exists j int :: 0 <= j && j < len(blocks) && isText(blocks[j]))
+//@   ensures res0 != nil ==> allocated(res0) && strOf(res0["role"]) == "user"
+
+//@ func (t *Translator) convertAssistantMessage
+//@   property C12
+//@   safety
+//@   requires t != nil && t.logger != nil
+//@   ensures res != nil ==> allocated(res) && strOf(res["role"]) == "assistant"
+
+// one turn of the conversation. For a user turn given as blocks, the tool results and the text keep the order the
+// client gave them: when the first block is a tool result (the order Anthropic mandates), the first message is a
+// tool message, not the user text.
+//@ spec func blocksOf(c interface{}) []interface{} = asType(c, "[]interface{}")
+//@ func (t *Translator) convertSingleMessage
+//@   property C12
+//@   replay anthropic_request_toolresult_order
+//@   safety
+//@   requires t != nil && t.logger != nil
+//@   requires typeis(msg.Content, "[]interface{}") ==> (forall j int :: 0 <= j && j < len(blocksOf(msg.Content)) && isObj(blocksOf(msg.Content)[j]) ==> allocated(blkMap(blocksOf(msg.Content)[j])))
+//@   requires typeis(msg.Content, "map[string]interface{}") ==> allocated(blkMap(msg.Content))
+//@   ensures res1 == nil ==> (forall k int :: 0 <= k && k < len(res0) ==> res0[k] != nil && allocated(res0[k]))
+//@   ensures res1 == nil && typeis(msg.Content, "string") && asString(msg.Content) != "" ==> len(res0) == 1 && strOf(res0[0]["role"]) == msg.Role && strOf(res0[0]["content"]) == asString(msg.Content)
+//@   ensures res1 == nil && msg.Role == "user" && typeis(msg.Content, "[]interface{}") && len(blocksOf(msg.Content)) > 0 && isToolResult(blocksOf(msg.Content)[0]) ==> len(res0) >= 1 && strOf(res0[0]["role"]) == "tool" && strOf(res0[0]["tool_call_id"]) == strOf(blkMap(blocksOf(msg.Content)[0])["tool_use_id"])
+//@   ensures res1 == nil && msg.Role == "user" && typeis(msg.Content, "[]interface{}") && len(blocksOf(msg.Content)) > 0 && isText(blocksOf(msg.Content)[0]) ==> len(res0) >= 1 && strOf(res0[0]["role"]) == "user"
+//@   ensures res1 == nil && (msg.Role == "user" || msg.Role == "assistant") ==> (forall k int :: 0 <= k && k < len(res0) ==> strOf(res0[k]["role"]) != "system")
+
+//@ func (t *Translator) convertSystemPrompt
+//@   property C12
+//@   trusted
+
+// the conversation: an optional system message first, then the turns in the client's order
+//@ func (t *Translator) convertMessages
+//@   property C12
+//@   safety
+//@   requires t != nil && t.logger != nil
+//@   requires forall q int :: 0 <= q && q < len(anthropicMessages) ==> (anthropicMessages[q].Role == "user" || anthropicMessages[q].Role == "assistant")
+//@   assume forall q int, j int :: 0 <= q && q < len(anthropicMessages) && typeis(anthropicMessages[q].Content, "[]interface{}") && 0 <= j && j < len(blocksOf(anthropicMessages[q].Content)) && isObj(blocksOf(anthropicMessages[q].Content)[j]) ==> allocated(blkMap(blocksOf(anthropicMessages[q].Content)[j]))
+//@   assume forall q int :: 0 <= q && q < len(anthropicMessages) && typeis(anthropicMessages[q].Content, "map[string]interface{}") ==> allocated(blkMap(anthropicMessages[q].Content))
+//@   loop 1 invariant forall k int :: 0 < k && k < len(openaiMessages) ==> openaiMessages[k] != nil && allocated(openaiMessages[k]) && strOf(openaiMessages[k]["role"]) != "system"
+//@   loop 1 invariant len(openaiMessages) > 0 ==> openaiMessages[0] != nil && allocated(openaiMessages[0])
+//@   ensures res1 == nil ==> (forall k int :: 0 < k && k < len(res0) ==> res0[k] != nil && strOf(res0[k]["role"]) != "system")
+
+// tool definitions: one OpenAI function per Anthropic tool, same order, same name / description / schema
+//@ func (t *Translator) convertTools
+//@   property C12
+//@   safety
+//@   loop 1 invariant len(openaiTools) == i$1 && (forall k int :: 0 <= k && k < len(openaiTools) ==> openaiTools[k] != nil && allocated(openaiTools[k]) && strOf(openaiTools[k]["type"]) == "function" && isObj(openaiTools[k]["function"]) && allocated(blkMap(openaiTools[k]["function"])) && blkMap(openaiTools[k]["function"]) != openaiTools[k] && strOf(blkMap(openaiTools[k]["function"])["name"]) == anthropicTools[k].Name && strOf(blkMap(openaiTools[k]["function"])["description"]) == anthropicTools[k].Description)
+//@   ensures len(res) == len(anthropicTools)
+//@   ensures forall k int :: 0 <= k && k < len(res) ==> res[k] != nil && strOf(res[k]["type"]) == "function" && isObj(res[k]["function"]) && strOf(blkMap(res[k]["function"])["name"]) == anthropicTools[k].Name && strOf(blkMap(res[k]["function"])["description"]) == anthropicTools[k].Description
+
+// tool_choice: auto -> auto, any -> required, none -> none, {type: tool, name: X} -> {type: function, function: {name: X}}
+//@ func (t *Translator) convertToolChoice
+//@   property C12
+//@   safety
+//@   ensures res1 == nil ==> res0 != nil
+//@   ensures typeis(toolChoice, "string") && asString(toolChoice) == "any" ==> res1 == nil && strOf(res0) == "required"
+//@   ensures typeis(toolChoice, "string") && asString(toolChoice) == "none" ==> res1 == nil && strOf(res0) == "none"
+//@   ensures typeis(toolChoice, "string") && asString(toolChoice) == "auto" ==> res1 == nil && strOf(res0) == "auto"
+//@   ensures isObj(toolChoice) && strOf(blkMap(toolChoice)["type"]) == "any" ==> res1 == nil && strOf(res0) == "required"
+//@   ensures isObj(toolChoice) && strOf(blkMap(toolChoice)["type"]) == "tool" && typeis(blkMap(toolChoice)["name"], "string") ==> res1 == nil && isObj(res0) && strOf(blkMap(res0)["type"]) == "function" && isObj(blkMap(res0)["function"]) && strOf(blkMap(blkMap(res0)["function"])["name"]) == asString(blkMap(toolChoice)["name"])
+//@   ensures isObj(toolChoice) && strOf(blkMap(toolChoice)["type"]) == "tool" && !typeis(blkMap(toolChoice)["name"], "string") ==> res1 != nil
+
+//@ func (r *AnthropicRequest) Validate
+//@   property C12
+//@   safety
+//@   requires r != nil
+//@   ensures res == nil ==> r.Model != "" && len(r.Messages) > 0 && r.MaxTokens >= 1
+
+// the whole request: the scalar parameters are carried over, the messages and tools are the converted ones, and a
+// request that fails decoding or validation produces an error and no upstream request
+//@ func (t *Translator) TransformRequest
+//@   property C12
+//@   safety
+//@   requires t != nil && t.logger != nil && t.inspector != nil && r != nil && r.Body != nil
+//@   modifies *
+//@   at call convertMessages 1 assume forall q int :: 0 <= q && q < len(anthropicReq.Messages) ==> (anthropicReq.Messages[q].Role == "user" || anthropicReq.Messages[q].Role == "assistant")
+//@   at return 6 assert len(anthropicReq.StopSequences) > 0 ==> has(openaiReq, "stop") && typeis(openaiReq["stop"], "[]string") && asType(openaiReq["stop"], "[]string") == anthropicReq.StopSequences
+//@   at return 6 assert len(anthropicReq.StopSequences) == 0 ==> !has(openaiReq, "stop")
+//@   at return 6 assert anthropicReq.Temperature != nil ==> has(openaiReq, "temperature") && typeis(openaiReq["temperature"], "float64") && asFloat(openaiReq["temperature"]) == deref(anthropicReq.Temperature)
+//@   at return 6 assert anthropicReq.TopP != nil ==> has(openaiReq, "top_p") && typeis(openaiReq["top_p"], "float64") && asFloat(openaiReq["top_p"]) == deref(anthropicReq.TopP)
+//@   at return 6 assert asInt(openaiReq["max_tokens"]) == anthropicReq.MaxTokens && strOf(openaiReq["model"]) == anthropicReq.Model && asBool(openaiReq["stream"]) == anthropicReq.Stream
+//@   ensures res1 != nil ==> res0 == nil
+//@   ensures res1 == nil ==> res0 != nil && res0.TargetPath == "/v1/chat/completions" && res0.OpenAIRequest != nil && res0.ModelName != ""
+//@   ensures res1 == nil ==> strOf(res0.OpenAIRequest["model"]) == res0.ModelName && typeis(res0.OpenAIRequest["stream"], "bool") && asBool(res0.OpenAIRequest["stream"]) == res0.IsStreaming
+//@   ensures res1 == nil ==> has(res0.OpenAIRequest, "messages") && has(res0.OpenAIRequest, "max_tokens") && typeis(res0.OpenAIRequest["max_tokens"], "int") && asInt(res0.OpenAIRequest["max_tokens"]) >= 1
